@@ -170,7 +170,9 @@ def rule_d(repo, chk):
     # key consistency of the late-merge table
     regs = [x for x in calls_in(f, 'setdefault') if norm(x.func.value) == 'non_matching_reference_maps']
     # read with .get(k, []) (and deleted afterwards) or taken out with .pop(k, ()): the same maps come out
-    gets = [x for x in calls_in(f, 'get') + calls_in(f, 'pop') if norm(x.func.value) == 'non_matching_reference_maps' and len(x.args) == 2]
+    # (a `.pop(k, None)` whose value is thrown away is the deletion, not a read)
+    gets = [x for x in calls_in(f, 'get') + calls_in(f, 'pop') if norm(x.func.value) == 'non_matching_reference_maps' and len(x.args) == 2
+            and not isinstance(getattr(x, '_parent', None), ast.Expr)]
     chk.ob('C05.d', len(regs) == 1 and len(gets) == 1, f, 'the late-merge table is filled and read at one place each')
     if regs and gets:
         def iter_source(call):
